@@ -18,7 +18,7 @@ func init() {
 		ID:    "C03",
 		Level: "exploration",
 		Rule: "seeded scenarios: argument maps generated first (nested maps/lists/strings/ints/floats/bytes), policies of every statement kind generated over them inside the unambiguous fragment (every selector resolves; truth of every statement fixed by the reference evaluator), distributed over the links in every pattern (only root / only leaf / all links / last statement of last link ...), then 0..3 statements falsified at chosen (link, statement) positions. " +
-			"Oracles: (1) allowed => every statement of every link is true on the checked arguments; (2) monotonicity pairs: a denied chain stays denied after adding a statement to a link or a conforming link carrying a policy; (3) hook: the verdict follows the arguments the hook returns (both directions), the hook receives the token's arguments, a hook error denies. " +
+			"Oracles: (1) allowed => every statement of every link is true on the checked arguments; (2) monotonicity pairs: a denied chain stays denied after adding a statement to a link or a conforming link carrying a policy; (3) hook: the verdict follows the arguments the hook returns (both directions; returned maps: satisfying, violating, empty, strict subset), the hook receives the token's arguments, a hook error denies. " +
 			"non-trivial = at least one policy statement; distinct = (n, statement kinds per link, falsified positions, hook mode).",
 		Assumptions: []string{
 			"reference evaluator ref.Eval (three-valued, no short-circuit) fixes the truth of every statement; only policies whose every selector resolves on the arguments are generated",
@@ -26,10 +26,10 @@ func init() {
 		},
 		Shards:      shards(8, 16),
 		Run:         runC03,
-		MinEvals:    floor(4000, 130000),
+		MinEvals:    floor(3200, 110000),
 		MinDistinct: floor(1500, 40000),
 		RequiredCells: func(string) []string {
-			cells := []string{"hook/returns-satisfying", "hook/returns-violating", "hook/error", "hook/sees-token-args", "mono/add-statement", "mono/add-link", "pattern/only-root", "pattern/only-leaf", "all-true"}
+			cells := []string{"hook/returns-satisfying", "hook/returns-violating", "hook/returns-empty", "hook/returns-subset", "hook/error", "hook/sees-token-args", "mono/add-statement", "mono/add-link", "pattern/only-root", "pattern/only-leaf", "all-true"}
 			for _, lp := range []string{"first", "middle", "last"} {
 				for _, sp := range []string{"first", "middle", "last", "only"} {
 					cells = append(cells, "false/link="+lp+"/stmt="+sp)
@@ -131,7 +131,7 @@ func kindsPerLink(s *chain.Scenario) string {
 
 func runC03(w *mon.W) {
 	r := w.Rng
-	total := w.Share(w.Pick(3000, 100000))
+	total := w.Share(w.Pick(3500, 100000))
 	for it := 0; it < total; it++ {
 		n := 1 + r.IntN(w.Pick(5, 7))
 		s := chain.FullConformant(r, n, 5)
@@ -162,7 +162,7 @@ func runC03(w *mon.W) {
 		}
 		// falsify 0..3 statements
 		nf := []int{0, 1, 1, 1, 2, 3}[r.IntN(6)]
-		if it%5 == 2 || it%5 == 3 {
+		if m := it % 7; m == 2 || m == 3 || m == 5 || m == 6 {
 			nf = 0 // hook modes start from an all-true policy
 		}
 		var falsified []string
@@ -221,7 +221,7 @@ func runC03(w *mon.W) {
 			npol += len(l.Pol)
 		}
 
-		mode := it % 5 // 0,1: plain; 2: hook satisfying; 3: hook violating; 4: hook error / identity
+		mode := it % 7 // 0,1: plain; 2: hook satisfying; 3: hook violating; 4: hook error; 5: hook returns {}; 6: hook returns a subset
 		var e error
 		expectAllowed := tri == ref.True
 		hookDesc := "none"
@@ -292,6 +292,56 @@ func runC03(w *mon.W) {
 				d["error"] = errStr(e)
 				w.Violate(fmt.Sprintf("hook/%s/allowed=%v", hookDesc, e == nil),
 					fmt.Sprintf("with an argument hook the verdict must follow the returned arguments: hook %s, allowed=%v (%s)", hookDesc, e == nil, errStr(e)), d)
+			}
+			w.Distinct(n, kindsPerLink(s), falsified, hookDesc)
+			continue
+		case 5, 6:
+			// the hook returns an empty map / a strict subset of the token's arguments: both are
+			// legal results, and they are what must be checked
+			hookArgs := ref.Map()
+			hookDesc = "returns-empty"
+			if mode == 6 && len(s.Args.M) > 1 {
+				hookDesc = "returns-subset"
+				drop := r.IntN(len(s.Args.M))
+				for i, e := range s.Args.M {
+					if i != drop {
+						hookArgs.M = append(hookArgs.M, e)
+					}
+				}
+			}
+			ha, err := chain.ArgsFromV(hookArgs, nil)
+			if err != nil {
+				continue
+			}
+			e = b.Inv.ExecutionAllowedWithArgsHook(b.Loader, func(a args.ReadOnly) (*args.Args, error) { return ha, nil })
+			w.Eval(1)
+			w.Cover("hook/" + hookDesc)
+			// expectation from the returned arguments: all statements true -> allowed; some statement
+			// false, or a top-level leaf statement over a missing required path -> denied; else open
+			ht, _ := s.PoliciesOK(hookArgs)
+			verdict := ""
+			switch ht {
+			case ref.True:
+				verdict = "allow"
+			case ref.False:
+				verdict = "deny"
+			default:
+				for _, l := range s.Links {
+					for _, st := range l.Pol {
+						if len(st.Subs) == 0 {
+							if _, why := ref.Eval(st, hookArgs); why == ref.WMissing {
+								verdict = "deny"
+							}
+						}
+					}
+				}
+			}
+			if verdict != "" && (e == nil) != (verdict == "allow") {
+				d := s.Describe()
+				d["hook_returns"] = hookArgs.String()
+				d["error"] = errStr(e)
+				w.Violate(fmt.Sprintf("hook/%s/allowed=%v", hookDesc, e == nil),
+					fmt.Sprintf("with an argument hook the verdict must follow the returned arguments: hook %s (%s), allowed=%v (%s)", hookDesc, hookArgs, e == nil, errStr(e)), d)
 			}
 			w.Distinct(n, kindsPerLink(s), falsified, hookDesc)
 			continue
